@@ -59,8 +59,11 @@ def run(ctx):
             rasts.append('b%d[r%x-%x]' % (neg, lo, hi))
             rasts.append('l78.b%d[r%x-%x].s' % (neg, lo, hi))
     ev2, nt2, mism2 = corr.search_den(rasts, [(0, 1, 0), (1, 1, 0), (1, 0, 0)], maxlen=2, extra='_^x')
-    ev, nt = ev + ev2, nt + nt2
-    mism = dmism + mism + mism2
+    # CASE wins over IGNORECASE whatever else is set: the case-sensitive language with both flags given (and FORCEUNIX)
+    ev4, nt4, mism4 = corr.search_den(rasts + ['l41.l62', 'b0[r41-43].l78', 'xA(l41.l62;l63.l44).l65', 'xN(l41.l62)', 'l72.s.l45'],
+                                      [(0, 1, 0), (0, 0, 0)], maxlen=3, extra='aBe', extra_flags=Fm.IGNORECASE)
+    ev, nt = ev + ev2 + ev4, nt + nt2 + nt4
+    mism = dmism + mism + mism2 + mism4
     hits, rest = common.attribute(
         ctx, mism, classifiers(),
         lambda m: 'fnmatch %s(%r, %r, %s) = %r but the documented language says %s' % (
